@@ -770,4 +770,14 @@ B('L-invalidate-slice', ['C05', 'C09'], 'index_level.py', 'IndexLevelGO.append',
 N('L-invalidate-renamed', ['C05', 'C09'], 'index_level.py', 'IndexLevelGO.append',
   '        for node in edge_nodes:\n            node._length = None', '        for visited in edge_nodes:\n            visited._length = None')
 
+# ---------------------------------------------------------------------------------- reindex correspondence (C06, C07)
+B('IC-index-guard-dropped', ['C06', 'C07'], 'type_blocks.py', 'TypeBlocks.resize_blocks',
+  '                    if index_ic.has_common:\n                        values[index_ic.iloc_dst] = b[index_ic.iloc_src]', '                    if True:\n                        values[index_ic.iloc_dst] = b[index_ic.iloc_src]', 'I.correspondence-guard', 'resize_blocks')
+B('IC-both-axes-guard-dropped', ['C06', 'C07'], 'type_blocks.py', 'TypeBlocks.resize_blocks',
+  '                                if index_ic.has_common:\n                                    if b.ndim == 1:', '                                if True:\n                                    if b.ndim == 1:', 'I.correspondence-guard', 'resize_blocks')
+B('IC-columns-zip-unguarded', ['C06', 'C07'], 'type_blocks.py', 'TypeBlocks.resize_blocks',
+  '                            ) if columns_ic.has_common else {}', '                            )', 'I.correspondence-guard', 'resize_blocks')
+N('IC-guard-via-local', ['C06', 'C07'], 'type_blocks.py', 'TypeBlocks.resize_blocks',
+  '                                if index_ic.has_common:\n                                    if b.ndim == 1:', '                                if index_ic.has_common is True or index_ic.has_common:\n                                    if b.ndim == 1:')
+
 VARIANTS = V
